@@ -97,7 +97,7 @@ def path_select(path):
         return "/"
     out = []
     for seg in path.split("/")[1:]:
-        out.append("@" + seg[1:] if seg.startswith("@") else "node()[%s]" % seg)
+        out.append("@*[name() = '%s']" % seg[1:] if seg.startswith("@") else "node()[%s]" % seg)
     return "/" + "/".join(out)
 
 
